@@ -270,7 +270,7 @@ func init() {
 			return
 		},
 		Floors: func(tier string) map[string]int64 {
-			return map[string]int64{"concurrent_executions": 1000, "groups_with_observed_overlap": 20, "cancel_trials": 100, "cancels_landed_mid_execution": 40}
+			return map[string]int64{"concurrent_executions": 500, "groups_with_observed_overlap": 10, "cancel_trials": 100, "cancels_landed_mid_execution": 40}
 		},
 	})
 }
